@@ -343,12 +343,92 @@ class PairCase(Case):
     return cl
 
 
-CASES = {'pair': PairCase(), 'aggregation': AggregationCase()}
+_FLOAT_CORNER_SCRIPT = """
+import numpy as np
+cpwl = mod('conditional_pwl_calibration')
+pl = mod('pwl_calibration_layer')
+out = []
+for case in args[0]:
+  ip = np.asarray(case['input_params'], np.float32)
+  op = np.asarray(case['output_params'], np.float32)
+  units = ip.shape[0]
+  lo, hi, omin, omax = case['in_min'], case['in_max'], case['out_min'], case['out_max']
+  x = tf.constant(np.asarray(case['xs'], np.float32).reshape(-1, 1))
+  fn = cpwl.pwl_calibration_fn(inputs=x, keypoint_input_parameters=tf.constant(ip[np.newaxis]),
+                               keypoint_output_parameters=tf.constant(op[np.newaxis]), keypoint_input_min=lo,
+                               keypoint_input_max=hi, keypoint_output_min=omin, keypoint_output_max=omax, units=units,
+                               monotonicity='none').numpy()
+  nk = ip.shape[1] + 2
+  layer = pl.PWLCalibration(input_keypoints=np.linspace(lo, hi, nk), units=units, input_keypoints_type='learned_interior',
+                            dtype=tf.float32)
+  layer.build((None, 1))
+  layer.interpolation_logits.assign(np.concatenate([np.zeros((units, 1), np.float32), ip], axis=1))
+  outs = 1.0 / (1.0 + np.exp(-op.astype(np.float64))) * (omax - omin) + omin
+  layer.kernel.assign(np.concatenate([outs[:, :1], np.diff(outs, axis=1)], axis=1).T.astype(np.float32))
+  ly = layer(x).numpy()
+  d = np.abs(fn - ly)
+  bad = np.argwhere(~(d <= 1e-5))
+  out.append({'max_diff': float(np.nanmax(d)) if d.size else 0.0, 'nan': bool(np.isnan(d).any()),
+              'first': None if not bad.size else {'x': float(case['xs'][bad[0][0]]), 'unit': int(bad[0][1]),
+                                                  'fn': float(fn[tuple(bad[0])]), 'layer': float(ly[tuple(bad[0])])}})
+result = out
+"""
+
+_FLOAT_CORNERS = [
+    dict(name='regular keypoints', input_params=[[0.3, -0.7, 1.1]], output_params=[[-1.0, 0.5, 2.0, -0.3, 0.8]],
+         xs=[-0.5, 0.0, 0.1, 0.33, 0.5, 0.77, 1.0, 1.4], in_min=0.0, in_max=1.0, out_min=0.0, out_max=1.0),
+    dict(name='interior piece collapsed by float32 underflow (logit -200)', input_params=[[-200.0, 0.0]],
+         output_params=[[-2.0, -1.0, 1.5, 2.5]], xs=[0.1, 0.3, 0.45, 0.55, 0.75, 0.9, 1.2], in_min=0.0, in_max=1.0, out_min=0.0,
+         out_max=1.0),
+    dict(name='last piece collapsed, 2 units (logit -150)', input_params=[[0.5, -150.0], [0.0, 0.0]],
+         output_params=[[0.0, 1.0, -1.0, 2.0], [0.0, 1.0, -1.0, 2.0]], xs=[-1.0, 0.2, 0.6, 0.99, 1.5, 2.0], in_min=0.0, in_max=1.0,
+         out_min=-1.0, out_max=1.0),
+]
+
+
+class FloatCornerCase(Case):
+  """BOUNDED stand-in for a corner the exact-real contracts cannot express: keypoint logits so extreme that the float32
+  softmax gives a piece of length exactly 0 (over the reals every piece is positive).  pwl_calibration_fn and the
+  PWLCalibration layer holding the same logits and outputs are compared natively on a few such parameter sets."""
+  contract_key = None
+  xcheck = False
+
+  def replay_desc(self, cfg, model, g):
+    return {'kind': 'script', 'code': _FLOAT_CORNER_SCRIPT, 'floatx': 'float32', 'args': [_FLOAT_CORNERS], 'kwargs': {}}
+
+  def replay_eval(self, cfg, model, g, desc, nat):
+    if 'error' in nat:
+      failing = ['native comparison raised ' + nat['error'][:200]]
+    else:
+      failing = ['%s: %s' % (cs['name'], r['first'] or 'nan') for cs, r in zip(_FLOAT_CORNERS, nat.get('ok') or [])
+                 if r['nan'] or r['max_diff'] > 1e-5]
+    return {'desc': {'kind': 'pwl_calibration_fn against the PWLCalibration layer on float32 corner parameters',
+                     'cases': _FLOAT_CORNERS}, 'native': {k: v for k, v in nat.items() if k != 'trace'}, 'failing': failing}
+
+  def body(self, cfg, c):
+    from vt import prop
+    res = prop.run_native([{'kind': 'script', 'code': _FLOAT_CORNER_SCRIPT, 'floatx': 'float32', 'args': [_FLOAT_CORNERS],
+                            'kwargs': {}}])[0]
+    if 'error' in res:
+      raise RuntimeError('native float-corner runner: ' + res['error'] + res.get('trace', '')[-600:])
+    cl = []
+    for case, r in zip(_FLOAT_CORNERS, res['ok']):
+      ok = (not r['nan']) and r['max_diff'] <= 1e-5
+      detail = ''
+      if not ok:
+        f = r.get('first')
+        detail = ': nan' if not f else ': x=%s unit %s function %s layer %s' % (f['x'], f['unit'], f['fn'], f['layer'])
+      cl.append(('native:pwl_calibration_fn==PWLCalibration[%s]%s' % (case['name'], detail), B.const(ok)))
+    return cl
+
+
+CASES = {'pair': PairCase(), 'aggregation': AggregationCase(), 'float_corner': FloatCornerCase()}
 
 
 def configs(tier, rng):
   import props.C15 as C15
   jobs = []
+  jobs.append(('float_corner', {}))
   for inner in ('lattice', 'pwl'):
     for nf in ((1, 2) if tier == 'quick' else (1, 2, 3)):
       jobs.append(('aggregation', dict(inner=inner, features=nf, batch=4, lengths=[1, 2, 3, 4], seed=3 + nf)))
